@@ -590,6 +590,11 @@ func Run(repo, outDir string) ([]string, error) {
 	if err := writeIfChanged(filepath.Join(outDir, "TypeSwitchGen.v"), ts); err != nil {
 		return nil, err
 	}
+	fp, fpProblems := footprint(pkgs)
+	problems = append(problems, fpProblems...)
+	if err := writeIfChanged(filepath.Join(outDir, "FootprintGen.v"), fp); err != nil {
+		return nil, err
+	}
 	return problems, nil
 }
 
